@@ -33,8 +33,12 @@
                    release; unlock
      bulk_insert   one such critical section per stream item
      bulk_load     lock; compute new ids; reserve; cold insert per item; recount; release; unlock
-     delete        get_metadata; engine.delete; decrement           — NO quota mutex
-     batch_delete  filter by get_metadata; pre-count existing; engine batch delete; decrement — NO mutex
+     delete        lock quota mutex; get_metadata; engine.delete; decrement; unlock
+     batch_delete  lock quota mutex; filter by get_metadata; pre-count existing; engine batch delete;
+                   decrement; unlock
+   (Delete / BatchDelete take tenant_quota_lock since /repo 3784711.  The flag d_mutex / b_mutex = false
+   selects the protocol BEFORE that commit, in which they ran without the mutex; it is kept only as
+   regression documentation: the drift witnesses in Properties/C14.v run on it.)
    A schedule is a list of thread choices; a blocked or finished thread's turn is a no-op. *)
 From Coq Require Import List NArith Bool.
 From Kyro Require Model.Server.
@@ -290,33 +294,50 @@ Definition istep (limit : N) (me : bool) (sh : shared) (th : ithr) : option (sha
   | IDone => None
   end.
 
-(* ---- Delete thread (no mutex) *)
-Inductive dpc := DMeta | DEngine | DDecr | DDone.
-Record dthr := mkD { d_pc : dpc; d_id : N; d_existed : bool }.
-Definition dstart (id : N) : dthr := mkD DMeta id false.
-Definition dstep (sh : shared) (th : dthr) : option (shared * dthr) :=
+(* ---- Delete thread.  d_mutex = true: the code as it is (under the quota mutex);
+        d_mutex = false: the OLD protocol before /repo 3784711 (no mutex) — regression documentation only *)
+Inductive dpc := DLock | DMeta | DEngine | DDecr | DUnlock | DDone.
+Record dthr := mkD { d_pc : dpc; d_id : N; d_existed : bool; d_mutex : bool }.
+Definition dstart (id : N) : dthr := mkD DLock id false true.
+Definition dstart_old (id : N) : dthr := mkD DLock id false false.
+Definition dstep (me : bool) (sh : shared) (th : dthr) : option (shared * dthr) :=
   match d_pc th with
-  | DMeta => if mem (d_id th) (sh_live sh) then Some (sh, mkD DEngine (d_id th) false)
-             else Some (sh, mkD DDone (d_id th) false)
+  | DLock => if d_mutex th
+             then match sh_mutex sh with
+                  | None => Some (mkSh (Some me) (sh_count sh) (sh_live sh), mkD DMeta (d_id th) false (d_mutex th))
+                  | Some _ => None
+                  end
+             else Some (sh, mkD DMeta (d_id th) false (d_mutex th))
+  | DMeta => if mem (d_id th) (sh_live sh) then Some (sh, mkD DEngine (d_id th) false (d_mutex th))
+             else Some (sh, mkD DUnlock (d_id th) false (d_mutex th))
   | DEngine => if mem (d_id th) (sh_live sh)
-               then Some (mkSh (sh_mutex sh) (sh_count sh) (remove (sh_live sh) (d_id th)), mkD DDecr (d_id th) true)
-               else Some (sh, mkD DDone (d_id th) false)
-  | DDecr => Some (mkSh (sh_mutex sh) (sh_count sh - 1) (sh_live sh), mkD DDone (d_id th) true)
+               then Some (mkSh (sh_mutex sh) (sh_count sh) (remove (sh_live sh) (d_id th)), mkD DDecr (d_id th) true (d_mutex th))
+               else Some (sh, mkD DUnlock (d_id th) false (d_mutex th))
+  | DDecr => Some (mkSh (sh_mutex sh) (sh_count sh - 1) (sh_live sh), mkD DUnlock (d_id th) true (d_mutex th))
+  | DUnlock => Some ((if d_mutex th then mkSh None (sh_count sh) (sh_live sh) else sh), mkD DDone (d_id th) (d_existed th) (d_mutex th))
   | DDone => None
   end.
 
-(* ---- BatchDelete(ids) thread (no mutex) *)
-Inductive bpc := BFilter | BCount | BEngine | BDecr | BDone.
-Record bthr := mkB { b_pc : bpc; b_ids : list N; b_n : N }.
-Definition bstart (ids : list N) : bthr := mkB BFilter ids 0.
-Definition bstep (sh : shared) (th : bthr) : option (shared * bthr) :=
+(* ---- BatchDelete(ids) thread.  b_mutex as d_mutex above *)
+Inductive bpc := BLock | BFilter | BCount | BEngine | BDecr | BUnlock | BDone.
+Record bthr := mkB { b_pc : bpc; b_ids : list N; b_n : N; b_mutex : bool }.
+Definition bstart (ids : list N) : bthr := mkB BLock ids 0 true.
+Definition bstart_old (ids : list N) : bthr := mkB BLock ids 0 false.
+Definition bstep (me : bool) (sh : shared) (th : bthr) : option (shared * bthr) :=
   match b_pc th with
-  | BFilter => Some (sh, mkB BCount (keep_in (sh_live sh) (b_ids th)) 0)
+  | BLock => if b_mutex th
+             then match sh_mutex sh with
+                  | None => Some (mkSh (Some me) (sh_count sh) (sh_live sh), mkB BFilter (b_ids th) 0 (b_mutex th))
+                  | Some _ => None
+                  end
+             else Some (sh, mkB BFilter (b_ids th) 0 (b_mutex th))
+  | BFilter => Some (sh, mkB BCount (keep_in (sh_live sh) (b_ids th)) 0 (b_mutex th))
   | BCount => let u := dedup (b_ids th) in
               let n := len (keep_in (sh_live sh) u) in
-              if n =? 0 then Some (sh, mkB BDone u 0) else Some (sh, mkB BEngine u n)
-  | BEngine => Some (mkSh (sh_mutex sh) (sh_count sh) (remove_all (sh_live sh) (b_ids th)), mkB BDecr (b_ids th) (b_n th))
-  | BDecr => Some (mkSh (sh_mutex sh) (sh_count sh - b_n th) (sh_live sh), mkB BDone (b_ids th) (b_n th))
+              if n =? 0 then Some (sh, mkB BUnlock u 0 (b_mutex th)) else Some (sh, mkB BEngine u n (b_mutex th))
+  | BEngine => Some (mkSh (sh_mutex sh) (sh_count sh) (remove_all (sh_live sh) (b_ids th)), mkB BDecr (b_ids th) (b_n th) (b_mutex th))
+  | BDecr => Some (mkSh (sh_mutex sh) (sh_count sh - b_n th) (sh_live sh), mkB BUnlock (b_ids th) (b_n th) (b_mutex th))
+  | BUnlock => Some ((if b_mutex th then mkSh None (sh_count sh) (sh_live sh) else sh), mkB BDone (b_ids th) (b_n th) (b_mutex th))
   | BDone => None
   end.
 
@@ -372,8 +393,8 @@ Definition tstep (limit : N) (me : bool) (sh : shared) (th : thr) : option (shar
       | _, _ => match istep limit me sh cur with Some (sh', x') => Some (sh', TBI x' rest) | None => None end
       end
   | TL x => match lstep limit me sh x with Some (sh', x') => Some (sh', TL x') | None => None end
-  | TD x => match dstep sh x with Some (sh', x') => Some (sh', TD x') | None => None end
-  | TB x => match bstep sh x with Some (sh', x') => Some (sh', TB x') | None => None end
+  | TD x => match dstep me sh x with Some (sh', x') => Some (sh', TD x') | None => None end
+  | TB x => match bstep me sh x with Some (sh', x') => Some (sh', TB x') | None => None end
   end.
 Definition tdone (th : thr) : bool :=
   match th with
